@@ -364,6 +364,12 @@ class Interp(object):
                 return NativeFn("%s.%s" % (v.clsname(), attr), v.methods[attr])
             if isinstance(v.cls, str) and (v.cls, attr) in B.ABSTRACT_METHODS:
                 return BuiltinMethod(v, attr)
+            if isinstance(v.cls, ClassInfo) and self.class_assigns_field(v.cls, attr):
+                # the real class has this field (some method assigns self.<attr>) but the contract's symbolic object
+                # was built without it: the contract does not cover this version of the class -- undecided, not an
+                # AttributeError of the code
+                raise OutOfReach("field %s of %s is assigned by the class but not provided by the contract's object "
+                                 "(contract needs updating for this version of the code)" % (attr, v.clsname()))
             raise PyRaise("AttributeError", "%s has no attribute %s" % (v.clsname(), attr))
         if isinstance(v, ClassInfo):
             m = v.find_method(attr)
@@ -638,6 +644,15 @@ class Interp(object):
                 self.assign(t, x, frame)
         else:
             raise OutOfReach("assignment target %s" % type(target).__name__)
+
+    def class_assigns_field(self, cls, attr):
+        for c in cls.mro():
+            for m in c.methods.values():
+                for n in ast.walk(m.node):
+                    if isinstance(n, ast.Attribute) and n.attr == attr and isinstance(n.ctx, ast.Store) \
+                            and isinstance(n.value, ast.Name) and n.value.id == "self":
+                        return True
+        return False
 
     def property_parts(self, cls, expr):
         """(getter, setter) FunctionInfos for a class attribute defined as `property(getter[, setter])`"""
